@@ -12,7 +12,10 @@ theorem step_done_ArenaOK (s : St L) (c : Char) (a : Array (PNode L)) (hj : J s)
   split at h
   · cases h
   split at h
-  · cases h
+  · split at h
+    · cases h
+    · unfold stepField at h
+      repeat' (first | cases h | split at h)
   · cases h
   · cases h
   · cases h
